@@ -108,6 +108,11 @@ def check(fx, rep, tier):
             if x.get('k') == 'call' and (x.get('func') if isinstance(x.get('func'), str) else '').split('::')[-1].startswith('literal') and x.get('args') and x['args'][0].get('k') == 'str':
                 lits.append(x['args'][0]['value'])
                 kw.add(x['args'][0]['value'])
+            elif x.get('k') in ('call', 'mcall'):
+                # a token handed to a helper that parses it (e.g. prefixed_type("[]", input))
+                for a in x.get('args') or []:
+                    if isinstance(a, dict) and a.get('k') == 'str' and a.get('value') in WRAPPERS.values():
+                        lits.append(a['value'])
             if x.get('k') == 'mcall' and x.get('method') == 'map' and (x.get('recv') or {}).get('k') == 'call' and x['recv'].get('args') and x['recv']['args'][0].get('k') == 'str':
                 body = A.text((x.get('args') or [{}])[0]) + ' ' + ' '.join(y.get('text', '') for y in A.nodes(x.get('args')) if y.get('k') == 'path')
                 pm = re.search(r'Type::(\w+)', body)
